@@ -363,6 +363,12 @@ func (E *Engine) unknownCall(fr *Frame, st *State, what string, res *types.Tuple
 	if fr.spec {
 		E.fail("specification reaches unmodelled call: %s", what)
 	}
+	for _, a := range args {
+		E.escape(a)
+	}
+	if ci, ok := instr.(ssa.CallInstruction); ok && ci != nil && ci.Common().IsInvoke() {
+		E.escape(E.value(fr, ci.Common().Value))
+	}
 	E.note("unmodelled call havocs the heap: " + what)
 	E.havocAll(st)
 	return E.freshResults(fr, st, "ret", res)
@@ -370,10 +376,86 @@ func (E *Engine) unknownCall(fr *Frame, st *State, what string, res *types.Tuple
 
 func (E *Engine) havocAll(st *State) {
 	al := E.clock(st)
+	old := st.clone()
 	E.nextBase++
 	st.base = E.nextBase
 	st.heap = map[string]*Term{}
 	E.addFact(st, E.tb.Cmp("<=", al, E.clock(st)))
+	E.preserveUnescaped(st, old, nil)
+}
+
+// Objects allocated by the code under verification that have not escaped (never stored into memory,
+// passed to a call that is not executed inline, or captured by a closure) cannot be reached by
+// unknown code: they keep their contents across a havoc.
+type localObj struct {
+	ref  *Term
+	copy func(dst, src *State)
+	keys map[string]bool
+}
+
+func (E *Engine) registerLocal(ref *Term, keys map[string]bool, cp func(dst, src *State)) {
+	E.locals = append(E.locals, &localObj{ref: ref, copy: cp, keys: keys})
+}
+
+// escape marks every freshly allocated object whose reference occurs in v as escaped.
+func (E *Engine) escape(v Val) {
+	if len(E.locals) == 0 {
+		return
+	}
+	switch x := v.(type) {
+	case *Term:
+		E.escapeTerm(x)
+	case Tuple:
+		for _, y := range x {
+			E.escape(y)
+		}
+	case *Closure:
+		for _, b := range x.bind {
+			E.escape(b)
+		}
+	case *Addr:
+		E.escapeTerm(x.ref)
+	}
+}
+
+func (E *Engine) escapeTerm(t *Term) {
+	if t == nil || E.escSeen[t] {
+		return
+	}
+	E.escSeen[t] = true
+	if t.kind == kConst && strings.HasPrefix(t.atom, "&") {
+		E.escaped[t] = true
+		return
+	}
+	// do not look inside heap reads: the value read is what matters, and it was marked when stored
+	if t.op == "select" {
+		return
+	}
+	for _, a := range t.args {
+		E.escapeTerm(a)
+	}
+}
+
+// preserveUnescaped copies the contents of unescaped local objects from old into st, for the heap
+// arrays in only (nil: all).
+func (E *Engine) preserveUnescaped(st, old *State, only map[string]bool) {
+	for _, lo := range E.locals {
+		if E.escaped[lo.ref] {
+			continue
+		}
+		if only != nil {
+			hit := false
+			for k := range lo.keys {
+				if only[k] {
+					hit = true
+				}
+			}
+			if !hit {
+				continue
+			}
+		}
+		lo.copy(st, old)
+	}
 }
 
 // calleeBody picks the body to execute for fn and the type environment for it.
@@ -427,6 +509,9 @@ func (E *Engine) callFn(fr *Frame, st *State, fn *ssa.Function, args []Val, bind
 			E.fail("specification calls opaque function %s", name)
 		}
 		E.note("opaque call (declared //verif:opaque): " + name)
+		for _, a := range args {
+			E.escape(a)
+		}
 		E.havocKeys(st, ws, E.paramResolver(body, args))
 		return E.freshResults(fr, st, "ret$"+lastName(name), res)
 	}
@@ -599,6 +684,9 @@ func (E *Engine) protoGetter(fr *Frame, st *State, fn *ssa.Function, args []Val)
 
 func (E *Engine) useContract(fr *Frame, st *State, h *Harness, fn *ssa.Function, args []Val, instr ssa.Instruction) Val {
 	E.usedCtr[h.Name] = true
+	for _, a := range args {
+		E.escape(a)
+	}
 	if h.Trusted {
 		E.note("trusted contract (assumed, not proved): " + h.Name)
 	}
